@@ -338,6 +338,21 @@ def F34():
     return bad[0][:300] if bad else None
 
 
+def F35():
+    """C12 / C01 / C18: the application publishes from inside on_publish while _handle_connack() walks _out_messages to
+    retransmit (its loop_write() completes a queued QoS 0 PUBLISH, whose on_publish publishes a QoS 1 message):
+    RuntimeError 'OrderedDict mutated during iteration' leaves loop_read(), the remaining stored messages are not sent."""
+    from streams.session import STREAMS
+    from streams.session_monitors import mon_C12
+    st = [x for x in STREAMS if x.name == "reentry"][0]
+    case = ["cfg proto=4 clean=1 N=5 M=0 manual=1 rof=1 ext=1 ka=60 sup=1 cbpub=1 cbn=2 cbw=0", "publish 1 74 - 0", "publish 1 74 - 0", "connect ok", "publish 0 74 d7e2acf50f4a1020df01e7991f7d8ce0f0fe0123456705a761d468427aa6e5f7b05203eb79297fa4 1", "rx connack 0 0"]
+    obs = st.real(case)
+    if "exc:RuntimeError" in obs[-1]:
+        return "RuntimeError (OrderedDict mutated during iteration) escaped loop_read(); stored message 2 was not retransmitted: " + obs[-1][-160:]
+    hits = mon_C12(st, case, obs)
+    return hits[0][2] if hits else None
+
+
 def F27():
     """C01: a QoS 1 message accepted while disconnected (MQTT_ERR_NO_CONN) is sent and acknowledged after connecting,
     on_publish fires - but its MQTTMessageInfo keeps raising in is_published()/wait_for_publish()."""
@@ -608,7 +623,7 @@ def F18():
 
 
 ALL = {"F1": F1, "F2": F2, "F3": F3, "F4": F4, "F4b": F4b, "F5": F5, "F6": F6, "F7": F7, "F8": F8, "F9": F9,
-       "F10": F10, "F19": F19, "F20": F20, "F21": F21, "F22": F22, "F23": F23, "F24": F24, "F25": F25, "F26": F26, "F29": F29, "F27": F27, "F28": F28, "F11": F11, "F12": F12, "F13": F13, "F13t": F13t, "F34": F34, "F33": F33, "F32": F32, "F31": F31, "F30": F30, "F15": F15, "F16": F16, "F17": F17, "F18": F18}
+       "F10": F10, "F19": F19, "F20": F20, "F21": F21, "F22": F22, "F23": F23, "F24": F24, "F25": F25, "F26": F26, "F29": F29, "F27": F27, "F28": F28, "F11": F11, "F12": F12, "F13": F13, "F13t": F13t, "F35": F35, "F34": F34, "F33": F33, "F32": F32, "F31": F31, "F30": F30, "F15": F15, "F16": F16, "F17": F17, "F18": F18}
 
 
 def run(name):
